@@ -325,6 +325,23 @@ def _manager_connect(ctx, R, roles, T):
                     inner = a[2][0]
                 if not (inner[0] == "call" and inner[1] == ".GetPublicKey" and inner[2] == (("proj", ("p", "rsa_keys"), 0),)):
                     okd = False
+        # the key object belongs to the signer: appending the NUL in place (`pubkey += b'\0'`) would extend the signer's own bytearray, and the next
+        # connect() would offer `key\0\0`
+        inplace = []
+        for n_ in g.live_nodes():
+            if n_.kind == "stmt" and isinstance(n_.ast, ast.AugAssign) and isinstance(n_.ast.target, ast.Name):
+                tv = T.term(f, n_, ast.Name(id=n_.ast.target.id, ctx=ast.Load()))
+                from ..terms import alts_of as _alts
+                if any(a_[0] == "call" and a_[1] == ".GetPublicKey" for a_ in _alts(tv)):
+                    inplace.append(n_)
+            elif n_.kind == "stmt":
+                for c_ in node_calls(n_):
+                    if isinstance(c_.func, ast.Attribute) and c_.func.attr in ("extend", "append", "insert") and isinstance(c_.func.value, ast.Name):
+                        tv = T.term(f, n_, c_.func.value)
+                        from ..terms import alts_of as _alts
+                        if any(a_[0] == "call" and a_[1] == ".GetPublicKey" for a_ in _alts(tv)):
+                            inplace.append(n_)
+        R.check(not inplace, "HS-pubkey", q + "|not-in-place", "the signer's key object is not modified in place", "the object GetPublicKey() returned is extended in place (`%s`): a bytearray key of the signer grows by a NUL with every attempt" % (norm_stmt(inplace[0].ast)[:60] if inplace else ""), f.loc(inplace[0].ast) if inplace else loc)
         R.check(okd, "HS-pubkey", q + "|payload", "payload = public key of rsa_keys[0] + NUL", "public-key payload is %s, expected GetPublicKey(rsa_keys[0]) + NUL" % show(d), f.loc(pk.node.ast))
         if len(cbs) == 1:
             cb = cbs[0]
